@@ -373,6 +373,22 @@ theorem exec_stores_only_produced :
     subst h
     exact ⟨rfl, fun hb => hab hb.symm⟩
 
+/-- The background refresh of a lazy cache (`doLazyUpdate`) walks the rest of the
+sequence on a copy of the context, which carries whatever response the context
+carried when the stale entry was found (the hit of an earlier cache). The source
+says that the refresh follows the same rule as `Exec`, so what it stores under the
+stale entry's key was produced by the rest of the sequence for that question. -/
+theorem lazy_refresh_stores_only_produced :
+    ∃ f, execStores Gen.Facts.c04LazyStoresOnlyNewResponse = some f ∧
+      ∀ (before after : Option Nat) (v : Nat), f before after = some v → after = some v ∧ before ≠ some v := by
+  refine ⟨_, by unfold execStores; exact if_pos (by decide), ?_⟩
+  intro before after v h
+  by_cases hab : after = before
+  · simp [hab] at h
+  · simp [hab] at h
+    subst h
+    exact ⟨rfl, fun hb => hab hb.symm⟩
+
 /-- Why comparing with the own hit only is not enough: a cache that misses while a
 response is already in the context stores that response. -/
 theorem own_hit_only_stores_travelling_response :
@@ -385,6 +401,6 @@ theorem own_hit_only_stores_travelling_response :
 when an entry is written with, and loaded under, its own key - read from the source. -/
 theorem facts_guard : Gen.Facts.c04DumpWritesKey = some true ∧ Gen.Facts.c04DumpLoadKeepsKey = some true ∧
     Gen.Facts.c04ExecKeyOfCurrentQuery = some true ∧ Gen.Facts.c04ExecSingleKey = some true ∧
-    Gen.Facts.c04ExecStoresOnlyNewResponse = some true := by decide
+    Gen.Facts.c04ExecStoresOnlyNewResponse = some true ∧ Gen.Facts.c04LazyStoresOnlyNewResponse = some true := by decide
 
 end Props.C04
